@@ -718,6 +718,7 @@ def layers_stage(ctx, model):
     c = ctx.cov['correspondence'].setdefault('markup_C15layers_model_on_flattened_config', {'cases': 0, 'disagreements': 0})
     c['cases'] += len(wires)
     c['disagreements'] += dis
+    return lcases
 
 
 def layers_text(user, glob):
@@ -856,6 +857,93 @@ def attach_meta(ctx, cases):
                 rp['meta'] = m
 
 
+# ---------------------------------------------------------------- replays that depend on earlier calls
+# A failure found in the middle of a stream may depend on what earlier calls of the same process left behind (module
+# level caches, shared default arguments).  A replay file must fail when re-run in a FRESH process: every concrete
+# violation that is going to be reported is re-run that way (`./check C15 --replay`); when the input alone holds there,
+# the calls that preceded it in the stream are recorded with it (`after`: the shortest tried suffix of the history
+# that makes it fail again) and replay() performs them first.  Costs nothing when there is no violation.
+HISTORY_TRIES = (1, 4, 16, 64, 400)
+
+
+def call_of(case):
+    if len(case) == 3:
+        return {'abbr': case[0], 'config': case[1], 'meta': case[2]}
+    abbr, user, glob, via, flat, meta = case
+    return {'abbr': abbr, 'config': user, 'global': glob, 'via': via, 'meta': meta}
+
+
+def judge_call(c):
+    """(result, why-the-property-fails or None) of one recorded call"""
+    meta = c.get('meta') or {'tree': True}
+    if 'global' in c:
+        r = impl_expand_layers(c['abbr'], c['config'], c['global'], c.get('via', 'three-arguments'))
+        return r, oracle(c['abbr'], effective_config(c['config'], c['global']), meta, r)
+    r = impl_expand(c['abbr'], c['config'])
+    return r, oracle(c['abbr'], c['config'], meta, r)
+
+
+def fresh_process_replay(rp):
+    import subprocess
+    import sys
+    import tempfile
+    with tempfile.NamedTemporaryFile('w', suffix='.json', delete=False) as f:
+        json.dump({'property': 'C15', 'replay': rp}, f, default=str)
+        path = f.name
+    try:
+        p = subprocess.run([sys.executable, os.path.join(VERIF, 'check'), 'C15', '--replay', path], cwd=VERIF,
+                           stdout=subprocess.DEVNULL, stderr=subprocess.DEVNULL, timeout=300)
+        return p.returncode
+    except Exception:  # noqa
+        return None
+    finally:
+        os.unlink(path)
+
+
+def settle_replays(ctx, streams):
+    conc = [v for v in ctx.violations if not v['no_input'] and (v.get('replay') or {}).get('component') in streams]
+    conc.sort(key=lambda v: len(json.dumps(v['replay'], default=str)))
+    first, seen = [], set()
+    for v in conc:
+        if v['key'] not in seen and len(first) < 10:
+            seen.add(v['key'])
+            first.append(v)
+    changed = False
+    for v in first:
+        rp = v['replay']
+        if fresh_process_replay(rp) != 0:
+            continue            # fails on its own (or could not be re-run): nothing to add
+        stream = streams[rp['component']]
+        pos = None
+        for k, case in enumerate(stream):
+            c = call_of(case)
+            if c['abbr'] == rp['abbr'] and canon_cfg(c['config']) == canon_cfg(rp['config']) and \
+                    canon_cfg(c.get('global')) == canon_cfg(rp.get('global')) and c.get('via') == rp.get('via'):
+                pos = k
+                break
+        if pos is None:
+            continue
+        for n in HISTORY_TRIES:
+            hist = [call_of(c) for c in stream[max(0, pos - n):pos]]
+            if fresh_process_replay(dict(rp, after=hist)) == 1:
+                rp['after'] = hist
+                changed = True
+                v['what'] += ' [holds on this input in a fresh process; fails after the %d call(s) that preceded it in the stream, recorded in the replay]' % len(hist)
+                ctx.cover('replay-needs-earlier-calls')
+                break
+            if n >= pos:
+                break
+        if 'after' not in rp:
+            v['what'] += ' [not reproduced in a fresh process, not even after the preceding calls of the stream]'
+    if changed:
+        # the report lists the smallest replays first and a recorded history makes a replay longer: keep the ten that
+        # were re-run in a fresh process, say how many other failing inputs there were
+        rest = [v for v in conc if v not in first]
+        if rest:
+            ctx.say('C15: %d further failing inputs are not listed (the listed ones were re-run in a fresh process)' % len(rest))
+            ctx.violations[:] = [v for v in ctx.violations if v not in rest]
+
+
 def run(ctx):
     ok = ctx.build(['props/C15.vo', 'run/MarkupRun.vo', 'run/IndentRun.vo'])
     if ok:
@@ -877,8 +965,9 @@ def run(ctx):
     run_cases(ctx, model, hsub, 'C15html', None, mode='events')
     check_chunks(ctx, hsub)
     attach_meta(ctx, cases)
-    if LAYERS_ON:
-        layers_stage(ctx, model)
+    lcases = layers_stage(ctx, model) if LAYERS_ON else []
+    if ctx.violations:
+        settle_replays(ctx, {'C15': cases, 'C15layers': lcases})
     tie = gen_tie(ctx)
     timpl = run_cases(ctx, model, tie, 'C15tie', None)
     if spec is not None:
@@ -897,6 +986,10 @@ def replay(ctx, obj):
     if 'abbr' not in rp:
         print('replay names a broken obligation, no input: %s' % str(rp)[:300])
         return 1
+    for c in rp.get('after') or []:
+        judge_call(c)           # the earlier calls of the same process this failure depends on
+    if rp.get('after'):
+        print('after %d earlier call(s) in this process (first %r, last %r):' % (len(rp['after']), rp['after'][0]['abbr'], rp['after'][-1]['abbr']))
     if 'global' in rp:
         via = rp.get('via', 'three-arguments')
         r = impl_expand_layers(rp['abbr'], rp['config'], rp['global'], via)
